@@ -214,7 +214,7 @@ def _build(repo, cfg, scratch, mir_path, cap):
         return ok1(st, v)
 
     table = compile_table([
-        (r"^parse_nmea_sentence$", s_parse_nmea),
+        (r"^%s$" % re.escape((P.sentence_parser_fn(funcs) or P.Function("parse_nmea_sentence", "")).name.split("::")[-1]), s_parse_nmea),
         (r"^(?:core::)?slice::<impl \[u8\]>::iter$", s_iter),
         (r"as Iterator>::fold::<u8,", s_fold),
         (r"as Iterator>::(?:take|skip)$", lambda ex, st, c, a, v, f: ok1(st, Opaque("iter-adapter", (v[0], v[1])))),
@@ -223,6 +223,8 @@ def _build(repo, cfg, scratch, mir_path, cap):
         (r"^<(?:std::vec::)?Vec<u8> as Deref>::deref$|^<(?:heapless::)?Vec<u8, \d+> as Deref>::deref$", s_deref_opaque_vec),
     ] + COMMON)
     ex = Executor(funcs, enums, structs, table)
+    # a `for` loop that XOR-folds the raw sentence is the same symbol as the iterator fold (checked: plain XOR from 0, over RAW)
+    ex.seq_xor_fold = lambda sl: b.xor if (isinstance(sl, SeqV) and sl.e.eq(RAW.e)) else None
     fparse = None
     for name, fn in funcs.items():
         if name.endswith("::parse") and fn.args and enum_last(fn.args[0][1]) == "AisParser":
